@@ -1713,8 +1713,12 @@ impl FixtureDatabase {
     ) -> Option<FixtureDefinition> {
         let definitions = self.definitions.get(fixture_name)?;
 
-        // Priority 1: Same file
-        if let Some(def) = definitions.iter().find(|d| d.file_path == file_path) {
+        // Priority 1: Same file (last definition wins, as in go-to-definition)
+        if let Some(def) = definitions
+            .iter()
+            .filter(|d| d.file_path == file_path)
+            .max_by_key(|d| d.line)
+        {
             return Some(def.clone());
         }
 
@@ -1731,8 +1735,12 @@ impl FixtureDatabase {
                 if let Some(parent) = def.file_path.parent() {
                     if file_path.starts_with(parent) {
                         let depth = parent.components().count();
-                        if depth > best_depth {
-                            // Deeper = closer conftest
+                        if depth > best_depth
+                            || (depth == best_depth
+                                && best_conftest.is_some_and(|best| def.line > best.line))
+                        {
+                            // Deeper = closer conftest; within one conftest the last
+                            // definition wins
                             best_conftest = Some(def);
                             best_depth = depth;
                         } else if best_conftest.is_none() {
